@@ -243,14 +243,23 @@ def converted (run : Nat) (p : Path) (o : OldProp) : List (Path × PObj) :=
     ++ strExtra ".encoder" (·.encoder)
     ++ strExtra ".checksum" (·.checksum)
 
-/-- body of the loop in `update_props` (:61-115) -/
+/-- the test before anything is changed (`needed`, `propname + suffix in hfile`): is the name of one of the
+`<name><suffix>` properties the conversion has to create taken? (`es` = `converted …`: the main property, then
+exactly the needed extras) -/
+def nameTaken (ps : List (Path × PObj)) (es : List (Path × PObj)) : Bool :=
+  es.tail.any fun e => hasPath ps e.1
+
+/-- body of the loop in `update_props`: re-check, refusal when a needed name is taken (the file is left as it
+is), then delete and create -/
 def convertProp (run : Nat) (f : File) (p : Path) : File × Option Err :=
   match lookup f.props p with
   | none => (f, some .keyError)
   | some (.new _) => (f, none)
   | some (.old o) =>
-    let r := createAll (f.props.filter (·.1 != p)) (converted run p o)
-    ({ f with props := r.1 }, r.2)
+    if nameTaken f.props (converted run p o) then (f, some .valueError)
+    else
+      let r := createAll (f.props.filter (·.1 != p)) (converted run p o)
+      ({ f with props := r.1 }, r.2)
 
 def newLink (run : Nat) (daid : String) : Link :=
   { id := .fresh run, created := .now run, updated := .now run, dataObjectType := "DataArray",
